@@ -328,8 +328,9 @@ func visitInstr(fr *frame, instr ssa.Instruction) continuation {
 		if lenN < 0 || capN < lenN {
 			panic(targetRuntimeError{"makeslice: len out of range"})
 		}
-		if capN > 1<<20 {
-			panic(engineError{fmt.Sprintf("makeslice: capacity %d too large for the interpreter", capN)})
+		if capN > 1<<22 {
+			// natively: "makeslice: cap out of range" panic or an out-of-memory crash
+			panic(targetRuntimeError{fmt.Sprintf("makeslice: allocation of %d elements (out of memory / cap out of range)", capN)})
 		}
 		slice := make([]value, capN)
 		tElt := instr.Type().Underlying().(*types.Slice).Elem()
@@ -468,7 +469,7 @@ func prepareCall(fr *frame, call *ssa.CallCommon) (fn value, args []value) {
 		// Interface method invocation.
 		recv := v.(iface)
 		if recv.t == nil {
-			panic("method invoked on nil interface")
+			panic(targetRuntimeError{"invalid memory address or nil pointer dereference (method call on nil interface)"})
 		}
 		if f := lookupMethod(fr.i, recv.t, call.Method); f == nil {
 			// Unreachable in well-typed programs.
